@@ -159,6 +159,11 @@ func newFECDecoder(dataShards, parityShards int) *fecDecoder {
 
 // decode a fec packet
 func (dec *fecDecoder) decode(in fecPacket) (recovered [][]byte) {
+	// too short to carry a FEC header
+	if len(in) < fecHeaderSize {
+		return nil
+	}
+
 	// Sample the packet type for auto-tuning
 	if in.flag() == typeData {
 		dec.autoTune.Sample(true, in.seqid())
